@@ -284,6 +284,9 @@ def run(rep, for_c07=False):
         from . import validate
         validate.stage(rep)              # what `valid` means: spec/Validate.tla against the real validators
         watchdog_pacing(rep)
+    else:
+        two_node_objects(rep)
+        answer_behind_submissions(rep)
     wd = tlc.workdir("MC_Psm")
     try:
         jobs = []
@@ -324,6 +327,16 @@ def run(rep, for_c07=False):
 def replay(rep, path):
     r = json.load(open(path))["replay"]
     nodemod.ensure_installed(0)
+    if r.get("kind") == "answer-behind-submissions":
+        answer_behind_submissions(rep)
+        rep.states, rep.transitions = 1, 1
+        rep.sample(r)
+        return rep.finish()
+    if r.get("kind") == "two-node-objects":
+        two_node_objects(rep)
+        rep.states, rep.transitions = 1, 1
+        rep.sample(r)
+        return rep.finish()
     if r.get("kind") == "watchdog-pacing":
         watchdog_pacing(rep)
         rep.states, rep.transitions = 1, 1
@@ -362,6 +375,157 @@ def replay(rep, path):
     rep.sample(r)
     return rep.finish()
 
+
+
+def two_node_objects(rep):
+    """Two node objects with different identities in one process (a client and a server, each talking to the harness), their
+    exchanges interleaved: every answer carries the identity of the node that emits it and the identifiers of the request that
+    node has just processed (the answer templates belong to a node object, not to the process)."""
+    from . import node as nm
+    A = {"LOCAL_NODE_HOSTNAME": "alpha.first.example", "LOCAL_NODE_REALM": "first.example"}
+    B = {"LOCAL_NODE_HOSTNAME": "beta.second.example", "LOCAL_NODE_REALM": "second.example"}
+    for order in (0, 1):
+        c = nm.Node("client", seed=order, cfg_override=A if order == 0 else B)
+        sv = nm.Node("server", seed=order, cfg_override=B if order == 0 else A, sched=c.s)
+        c.foreign_psm, sv.foreign_psm = ("server_psm_thread",), ("client_psm_thread",)
+        problems = []
+
+        def expect(n, kind, i, what):
+            got = [m for m in n.take_sent() if n.classify(m) == kind]
+            if len(got) != 1:
+                problems.append(f"{what}: {len(got)} {kind} emitted")
+                return
+            m = got[0]
+            ident = (m.origin_host_avp.data.decode("utf-8", "replace"), m.origin_realm_avp.data.decode("utf-8", "replace")) if m.has_avp("origin_host_avp") and m.has_avp("origin_realm_avp") else None
+            if ident != n.local:
+                problems.append(f"{what}: the {kind} carries the identity {ident}, the node is {n.local}")
+            if (m.header.get_hop_by_hop(), m.header.get_end_to_end()) != n.ids(i):
+                problems.append(f"{what}: the {kind} carries identifiers {m.header.hop_by_hop.hex()}/{m.header.end_to_end.hex()}, the request had {n.ids(i)}")
+        try:
+            first, second = (c, sv) if order == 0 else (sv, c)
+            for n in (first, second):
+                n.start()
+                psm, k = n.psm_thread, 0
+                while not psm.done and not n.at_ticker(psm) and k < 300:
+                    n.s.step(psm)
+                    k += 1
+                n.pump()
+                if n.role == "client":
+                    n.tick()
+                    n.tick()
+                    n.take_sent()
+                    n.inject(n.make("CEA", True, 1))
+                    n.tick()
+                else:
+                    n.inject(n.make("CER", True, 3))
+                    n.tick()
+                    expect(n, "CEA", 3, f"{n.role} {n.local[0]} (object created {'first' if n is first else 'second'})")
+                if n.state() != "Open":
+                    problems.append(f"{n.role} {n.local[0]} did not open")
+            for rnd, (n, i) in enumerate(((first, 2), (second, 3), (second, 1), (first, 4), (second, 2))):
+                n.inject(n.make("DWR", True, i))
+                n.tick()
+                expect(n, "DWA", i, f"{n.role} {n.local[0]}, watchdog round {rnd + 1}")
+            for n, i in ((second, 4), (first, 1)):
+                n.inject(n.make("DPR", True, i))
+                n.tick()
+                expect(n, "DPA", i, f"{n.role} {n.local[0]}, disconnect")
+        except (vsched.Deadlock, vsched.StepLimit, vsched.StepHang) as e:
+            problems.append(f"{type(e).__name__}: {str(e)[:200]}")
+        finally:
+            c.s.kill_all()
+        rep.case(("two-node-objects", order))
+        for pr in problems[:3]:
+            rep.violation(f"two node objects in one process ({'client' if order == 0 else 'server'} created first): {pr}", {"kind": "two-node-objects", "order": order})
+
+
+def answer_behind_submissions(rep):
+    """The application submits messages while the state machine thread is in the middle of the tick that answers a DWR (stopped
+    after k source lines of Open.run and of what it calls): the answer may be queued behind them and leave in a later batch.
+    It still carries the identifiers of ITS request, and so does the answer to the next DWR (other identifiers)."""
+    import bromelia.setup as bs
+    from . import assoc
+    saved = bs.SEND_BUFFER_MAXIMUM_SIZE
+    bs.SEND_BUFFER_MAXIMUM_SIZE = LIMIT
+    n_exec = 0
+    try:
+        for role in ("server", "client"):
+            for k in range(0, 70, 1 if rep.tier == "thorough" else 2):
+                n = nodemod.Node(role, seed=k)
+                n.s.line_funcs = {"run", "event_open_rcv_dwr", "send_message", "create_answer", "put_message_into_send_queue", "has_send_queue_message",
+                                  "has_recv_queue_message", "get_message", "event_send_message", "send_message_from_queue"}
+                n.s.line_budget = 4000
+                problems, finished_early = [], False
+                try:
+                    n.start()
+                    psm, g = n.psm_thread, 0
+                    while not psm.done and not n.at_ticker(psm) and g < 600:
+                        n.s.step(psm)
+                        g += 1
+                    n.pump()
+                    if role == "client":
+                        n.tick()
+                        n.tick()
+                        n.take_sent()
+                        n.inject(n.make("CEA", True, 1))
+                    else:
+                        n.inject(n.make("CER", True, 1))
+                    n.tick()
+                    n.take_sent()
+                    if n.state() != "Open":
+                        raise tlc.TlcError(f"answer-behind-submissions: the {role} node did not open")
+                    n.inject(n.make("DWR", True, 2))
+                    # the tick that answers the DWR, interrupted after k line-level steps
+                    g = 0
+                    psm = n.psm_thread
+                    first = True
+                    while g < k:
+                        if not first and n.at_ticker(psm):
+                            finished_early = True
+                            break
+                        if n.s.enabled(psm) != "go":
+                            break
+                        n.s.step(psm)
+                        first = False
+                        g += 1
+                    # message sizes: the first fills the batch so that the answer queued behind it does not fit any more
+                    big = APP_SIZE
+                    while len(assoc.app_request(10, big + 4, local=n.local, dest_realm=n.peer[1]).dump()) <= LIMIT - 24:
+                        big += 4
+                    sub = n.s.spawn("sender", lambda: [n.d.send_message(assoc.app_request(10 + j, (big, APP_SIZE, 40)[(j + k // 2) % 3], local=n.local, dest_realm=n.peer[1]))
+                                                       for j in range(3)])
+                    n.run_others(until=lambda: sub.done)          # (as far as it gets while the state machine thread stands still)
+                    for _ in range(10):
+                        n.tick()
+                    if not sub.done:
+                        problems.append("the submitting thread did not return")
+                    sent = n.take_sent()
+                    dwas = [m for m in sent if n.classify(m) == "DWA"]
+                    if len(dwas) != 1 or (dwas[0].header.get_hop_by_hop(), dwas[0].header.get_end_to_end()) != n.ids(2):
+                        problems.append(f"first DWR (identifiers {n.ids(2)}): DWA(s) emitted with {[(m.header.hop_by_hop.hex(), m.header.end_to_end.hex()) for m in dwas]}")
+                    for i in (3, 1):
+                        n.inject(n.make("DWR", True, i))
+                        for _ in range(3):
+                            n.tick()
+                        dwas = [m for m in n.take_sent() if n.classify(m) == "DWA"]
+                        if len(dwas) != 1 or (dwas[0].header.get_hop_by_hop(), dwas[0].header.get_end_to_end()) != n.ids(i):
+                            problems.append(f"a later DWR (identifiers {n.ids(i)}) was answered with {[(m.header.hop_by_hop.hex(), m.header.end_to_end.hex()) for m in dwas]}")
+                            break
+                except (vsched.Deadlock, vsched.StepLimit, vsched.StepHang) as e:
+                    problems.append(f"{type(e).__name__}: {str(e)[:200]}")
+                finally:
+                    n.s.kill_all()
+                n_exec += 1
+                rep.case(("answer-behind-submissions", role, k))
+                if problems:
+                    rep.violation(f"{role}: three messages submitted while the tick answering a DWR was stopped after {k} source lines: {problems[0]}",
+                                  {"kind": "answer-behind-submissions", "role": role, "k": k})
+                    break
+                if finished_early:
+                    break
+    finally:
+        bs.SEND_BUFFER_MAXIMUM_SIZE = saved
+    rep.notes["answer_behind_submissions_executions"] = n_exec
 
 
 def watchdog_pacing(rep):
